@@ -4,6 +4,7 @@ import SmtpV.Spec.DataMon
 import Driver.Conv
 import Driver.Codec
 import Driver.ClientGlue
+import Driver.Sched
 /-!
 Line-protocol driver: runs the *same definitions the theorems are about* on the case
 lines the Go harness receives.  One case per line, one answer per line.
@@ -64,6 +65,7 @@ def runMon (f : List String) : String :=
   match c.head? with
   | some "dr" => monDR c a
   | some "conv" => Conv.monitor pid c a
+  | some "sched" => Conv.monitor pid c a
   | some "rt" => Codec.monitorRT c a
   | some "parse" => Codec.monitorParse c a
   | some "cconv" => ClientGlue.monitor pid c a
@@ -81,6 +83,8 @@ def runCase (line : String) : String :=
   | some "tosmtperr" => Codec.probeToSMTPErr f
   | some "rt" => Codec.probeRT f
   | some "cconv" => ClientGlue.probe f
+  | some "accept" => Sched.probeAccept f
+  | some "sched" => Sched.probeSched f
   | some p => "DRIVER-UNKNOWN-PROBE " ++ p
   | none => "DRIVER-EMPTY"
 
